@@ -206,6 +206,10 @@ def check_upload(res, sc, drv, program_arg, keyp=""):
         d = diff(expected_type_def(dt), drv.data_types[nm], "type")
         if d:
             res.violation(f"{keyp}type-field:{diff_key(d)}", f"data type {nm!r} ({sc.label}, template fragments {sc.dev.tmpl_frag}): {d}", dict(wit, type=nm))
+    # nothing invented: every definition the driver holds is a type of THIS controller
+    invented = sorted(set(drv.data_types) - set(prj.types))
+    if invented:
+        res.violation(f"{keyp}data-types-invented", f"data_types holds {invented[:5]!r}, which this controller ({sc.label}) does not define", wit)
     # programs / tasks
     if program_arg in (None, "*"):
         res.ev()
@@ -259,6 +263,23 @@ def run(ctx):
                 sc.close()
                 continue
             js0 = check_upload(res, sc, sc.drv, "*" if ipt else None)
+            # ---- two controllers in one process: a second driver uploads ANOTHER controller's project (types of the same names laid out
+            # differently); each driver's tags / data_types keep mirroring its own controller
+            if pi % 5 == 3 and not sc.micro:
+                cfgB = rng.choice([c for c in CONFIGS if not c[2] and c[0] != cfg[0]])
+                prjB = rpj.generate_project(rng, "small", fw=cfgB[1], micro800=False)
+                for tn_ in [n_ for n_, t_ in sc.prj.types.items() if t_.kind == "struct"][:2]:   # same type names, other members
+                    if tn_ not in prjB.types:
+                        rpj.add_struct_tag(prjB, rng, tn_, [("other_a", "REAL", 0), ("other_b", "INT", 3)], f"uses_{len(prjB.symbols)}_q")
+                scB = LogixScenario(rng, config=cfgB, project=prjB, bench=sc.b, host="192.168.1.237")
+                res.count("two-controller-scenarios")
+                if not scB.ok():
+                    res.ev()
+                    res.violation("two-plc:open-failed", f"a second LogixDriver for another controller ({scB.label}) failed to open while the first ({sc.label}) is open: {scB.opened!r:.200}", None)
+                else:
+                    check_upload(res, scB, scB.drv, "*", keyp="two-plc:second:")
+                    check_upload(res, sc, sc.drv, "*" if ipt else None, keyp="two-plc:first:")
+                scB.close()
             if pi < 2:
                 res.sample({"config": sc.label, "page_mode": sc.dev.page_mode, "template_fragments": sc.dev.tmpl_frag, "uploaded_tags": sorted(sc.drv.tags)[:6],
                             "symbols_in_controller": len(sc.prj.symbols), "programs": list(sc.prj.programs)})
